@@ -209,6 +209,11 @@ class Harness(cm.BaseB):
             return f"{op}:{via}:bad", repr(case), V
         if p["kind"] != ("Aspirate" if op == "evo_aspirate" else "Dispense") or p["liquid_class"] != "LC" or p["arm"] != 0 or (p["grid"], p["site"]) != (30, 1) or p["spacing"] != 1:
             V.append(("C13/arguments", f"{recs[0]!r}"))
+        wantmask = 0
+        for t in tnums:
+            wantmask |= 1 << (t - 1)
+        if p["tip_mask"] != wantmask:
+            V.append(("C13/arguments", f"{op}({lwn}, wells={wells}, tips={tips_raw}): tip mask {p['tip_mask']}, given tips select {wantmask}"))
         # per-well change according to the command ...
         sign = -1 if op == "evo_aspirate" else 1
         cmd_delta = {c: robot.vol["L"][c] - init[c][0] for c in init}
